@@ -19,6 +19,7 @@ CONSTANTS MaxNodes, MaxLevel
 Levels == 0..MaxLevel
 AnySteps == {NAny(0, -1), NAny(-1, -1)} \cup {NAny(k, k) : k \in Levels}
             \cup {NAny(a, b) : a \in Levels, b \in Levels} \cup {NAny(a, -1) : a \in Levels}
+            \cup {NAny(-1, b) : b \in Levels}     \* {last to b}: depths from "unbounded" to b: nothing
 Followers == {NKey(KA), NAnyKey}
 PathSet == {<<NRoot, NAnyKey>>, <<NRoot, NAnyArr>>}
            \cup {<<NRoot, s>> : s \in AnySteps}
